@@ -168,7 +168,7 @@ class Check:
             if not os.path.exists(hdir):
                 shutil.copytree(HARNESS, hdir)
         os.makedirs(bdir, exist_ok=True)
-        lock = open(os.path.join(bdir, ".lock"), "w")
+        lock = open(os.path.join(bdir, ".lock-" + cmd), "w")
         fcntl.flock(lock, fcntl.LOCK_EX)
         try:
             sync_gomod(hdir)
